@@ -98,5 +98,10 @@ func (p *streamBufferedPipe) broadcastAfter(d time.Duration) {
 	if p.timeoutTimer != nil {
 		p.timeoutTimer.Stop()
 	}
-	p.timeoutTimer = time.AfterFunc(d, p.rwCond.Broadcast)
+	p.timeoutTimer = time.AfterFunc(d, func() {
+		// under the lock: the wake-up must not land between a reader's deadline check and its Wait
+		p.rwCond.L.Lock()
+		p.rwCond.Broadcast()
+		p.rwCond.L.Unlock()
+	})
 }
